@@ -9,7 +9,7 @@ META = {
             "contract, measure n - idx): the returned string is well formed and the parser reads it as the value of the subtree, where the parser is specified by four "
             "composition rules (leaf, f(E), (E)op(E) for the four infix operators, f(E,E)) -- the assumption that sympy parses fully parenthesised text compositionally. "
             "The writers region of generate_equations is verified (shared with C08): every tree is printed on ONE physical line of its file (PrettyPrinter widened before "
-            "a text can wrap), so that line k of trees_<n>.txt is tree k. Structural obligations on the two symbol tables (same definitions for shared names, parameters real, x positive, pow/sqrt/log on absolute values). "
+            "a text can wrap), so that line k of trees_<n>.txt is tree k, and the writer of all_equations_<n>.txt in duplicate_checker.main prints one physical line per function. Structural obligations on the two symbol tables (same definitions for shared names, parameters real, x positive, pow/sqrt/log on absolute values). "
             "Bounded stand-in on the real generation code (not counted as proved; covers sympify, the ESR printer and the file round trip): for every line of trees_<n>.txt / all_equations_<n>.txt of the generated libraries "
             "(six shipped bases and random sub-bases, complexities as listed; sampled lines above a size limit in the quick tier) the string, "
             "parsed with the generation-stage symbol table and with the fitting-stage Likelihood.run_sympify, evaluates like the tree under "
@@ -30,6 +30,10 @@ def check(run):
     sfailed = D.symtab_obligations(run)
     # line k of the tree files is tree k: the writers of generate_equations print one physical line per tree (shared with C08)
     wfailed, wsfailed, wfound = D.generation_writers(run, tier)
+    # ... and line k of all_equations_<n>.txt is function k: the writer of duplicate_checker.main prints one physical line per function
+    st_, f_, _e = D.verify_function(run, "generation/duplicate_checker.py", "main", (lambda: c_generator.line_writer_contract("main", "all_equations_", ["all_fun"])), timeout_ms=10000,
+                                    tag="writer all_equations", note="region: the `with open(all_equations_<n>.txt, 'w')` block; function strings abstract (no line break: A-str)")
+    wfailed = list(wfailed) + list(f_)
     run.assume("A-sympy: sympify parses fully parenthesised text compositionally (the four parser rules); lambdify evaluates what it is given",
                "tree precondition: arities 0/1/2, children present and after their parent (established by check_tree; bounded in C01)")
     run.trust("pyvc", "z3 5.1.0", "pyvc.symtab")
